@@ -3,6 +3,35 @@
 import json, sys
 BASE_OFF = "cd /repo && go test -mod=mod -json -vet=off -count=1 -timeout 25m ./..."
 checks = {
+ "C05": dict(cat="model_checking", design="§4 C05",
+   text="Election.tla transcribes SelectProducers (order by weight and name, cyclic fill, top group, second chance, random picks, shuffle) with math/rand's permutation as data; TLC checks on every configuration of <= 5 pillars with weights 0..2 and every possible permutation: exactly NodeCount slots, every slot a registered pillar, no duplicates when enough pillars, independence of the input order. Schedules reported by the real SelectProducers (seeded configurations, small and real group sizes) and by four differently built real nodes for every tick of a history (live producer, follower, restarted follower, follower after a reorganisation across ticks) are validated by TLC against the recomputation from the delegations as of the proof momentum. Every guard of Accept is broken in turn on a valid momentum (re-hashed and re-signed where an attacker would) and replayed through InsertChain.",
+   note="math/rand is an input; the 'not in the future' guard is probed against the wall clock",
+   technique="TLA+ specs Election.tla / ElectionMC.tla / ElectionTrace.tla + TLC; trace validation of real schedules; mutation replay"),
+ "C12": dict(cat="model_checking", design="§4 C12",
+   text="PowTrace.tla checks, with BigNat arithmetic, a division witness (q*d + r = 2^64, r < d) for every logged call of the real CheckPoWNonce and decides what the answer must be (h >= 2^64 - q): difficulties over the whole 64-bit range incl. 2^k, 2^k+-1, 2^63.., random and mined nonces, the same nonce under growing claims. Plasma.tla (fused - claims of unconfirmed blocks, base cost, cap, genuine proof-of-work, cancellation of the fusion while blocks are unconfirmed) is checked by TLC and its transitions are replayed on a real node with hand-built blocks at the boundary values.",
+   note="the hash function is trusted; proof-of-work parts in the replay are 49/50 plasma so that nonces are mined quickly",
+   technique="TLA+ specs PowTrace.tla (BigNat) / Plasma.tla + TLC; trace validation of the real PoW check; replay of boundary claims"),
+ "C15": dict(cat="model_checking", design="§4 C15",
+   text="PeerSession.tla gives every (message code, payload class) pair its required reaction - bounded reply, silent, drop of the offender only - for two peers before and after the handshake; TLC enumerates all message sequences up to length 3. Every transition is replayed in a child process against a real ProtocolManager over p2p.MsgPipe on a node with a 600-momentum chain: reply sizes against the limits, session end, a plain request answered afterwards, the other peer still served, the process alive (background goroutines included).",
+   note="payloads are representatives per class plus seeded random bytes; rlpx frames and discovery packets are not driven through sockets",
+   technique="TLA+ spec PeerSession.tla + TLC; replay of every transition against the real protocol handler in a child process"),
+ "C17": dict(cat="model_checking", design="§4 C17",
+   text="Spork.tla: create / activate (designated key, minimum delay, once) / tick / call with real heights; CodeAvail (cumulative method tables by priority) and PropAvail (the feature's own spork); TLC checks GateByHeight and ActivationRules and refutes CodeEqualsProperty (recorded finding). Behaviours ending in a call or in an attempt by a stranger are replayed on a real producer for all three sporks in every creation/activation order at heights just below, at and above enforcement, then adopted by a follower; a child process shows that a node not implementing an enforced spork stops exactly at the enforcement height.",
+   note="availability probed through send-time validation of one representative call per spork",
+   technique="TLA+ spec Spork.tla + TLC; replay on real producer and follower; child process for the halt"),
+ "C18": dict(cat="model_checking", design="§4 C18",
+   text="Rpc.tla defines the paging operators (ascending GetRange pages, descending chain pages, by-height windows) over a ground-truth list; TLC checks that pages partition the list in order, never exceed their size and are empty beyond the end, and refutes it for a wrapping product (code as found). Every (length, index, size) cell is replayed on real account chains and pool lists of exactly that length; 32-bit boundary indexes, momentum pages, stake/token list paging and the JSON round trip of every block of a history are checked against the same operators; a real rpc/server in a child process is fed hostile requests (fixed classes + seeded bytes) and must stay alive and answer.",
+   note="hostile bytes are sampled inside classes",
+   technique="TLA+ spec Rpc.tla + TLC; replay of all cells on the real API; child-process server under hostile input"),
+ "C19": dict(cat="model_checking", design="§4 C19",
+   text="Wallet.tla: key-file life cycle (create, tamper with cipher text / nonce / salt, restore, decrypt with each password) with ideal primitives; TLC checks ExactRoundTrip. Every transition ending in a decryption is replayed on the real wallet package with five password sets (empty, near-miss, unicode, > 128 bytes) and both entropy sizes; every third (thorough: every) single-bit corruption of cipher text, nonce and salt must be rejected; derivation is checked for determinism, index/path agreement, hardened-only and malformed paths, signature verification incl. trailing bytes, address = f(public key), base address = index 0.",
+   note="thinnest use of the technique: the specification contributes the life-cycle enumeration and expected outcomes; primitives are assumed ideal",
+   technique="TLA+ spec Wallet.tla + TLC; replay on the real wallet package, bit-flip enumeration"),
+ "C20": dict(cat="model_checking", design="§4 C20",
+   text="Genesis.tla: configuration as lists, the state the builder produces from them, Consistent (the built state adds up and is backed), the validator as repaired and as found, all single-entry perturbations of a consistent base; TLC checks Accepted => Consistent and refutes it for the validator as found. Every perturbation is applied to the repository's mock configuration and CheckGenesis is compared with the prediction; seeded permutations of every list and fresh child processes must build the same genesis hash and state-change hash; a database created under one configuration must be refused under each changed one and accepted under a permuted one.",
+   note="the mock configuration's colliding fusion entries are a recorded finding; the lab's base configuration gives fusions unique ids",
+   technique="TLA+ spec Genesis.tla + TLC; replay of all perturbation cells, permutations, child processes, start-up on foreign databases"),
+
  "C02": dict(cat="model_checking", design="§4 C02",
    text="Sync.tla transcribes InsertChain; TLC enumerates every delivery (extensions, forks, overlaps, re-deliveries, duplicates, invalid elements) over a tree of momentums and the generated behaviours are replayed on real followers with account blocks gossiped first, rival blocks pooled first, and restarts between deliveries; after each behaviour the follower's logical store (frontier and every historical view) must be byte-equal to that of a node that only ever saw the adopted chain. A long seeded history (all contracts, rewards over epochs) is delivered under six schedules and compared with the producer; forks across an epoch end are followed by the reward update computed by the follower.",
    note="abstract histories are short (4 elements of 1 or 15 momentums); long histories use a fixed list of schedules",
